@@ -212,6 +212,167 @@ let run_win toks =
     Buffer.contents buf
   | _ -> failwith "bad win case"
 
+(* ---- SRV ---- *)
+let fp_text (b : n list) : string = Printf.sprintf "%d:%016Lx" (List.length b) (fnv_extend fnv_init b)
+
+let spec_content (c : string) : n list =
+  if c = "-" then [] else if c.[0] = 'P' then file_of_spec (String.map (fun ch -> if ch = '_' then ':' else ch) c) else bytes_of_hex c
+
+(* insert a path (list of segments) into a directory node *)
+let rec insert_node (nd : node) (segs : n list list) (leaf : node) : node =
+  match nd, segs with
+  | NDir es, [s] -> (match lookup_entry s es with
+      | Some (NDir _) when (match leaf with NDir _ -> true | _ -> false) -> nd
+      | _ -> NDir (set_entry s leaf es))
+  | NDir es, s :: r ->
+    let sub = match lookup_entry s es with Some x -> x | None -> NDir [] in
+    NDir (set_entry s (insert_node sub r leaf) es)
+  | _, _ -> nd
+
+let segs_of_rel (rel : string) : n list list =
+  List.map bytes_of_string (List.filter (fun x -> x <> "") (String.split_on_char '/' rel))
+
+let build_tree (tree : string) : node =
+  let base = NDir [ (bytes_of_string "R", NDir []) ] in
+  if tree = "-" then base else
+  List.fold_left (fun nd ent ->
+    match String.split_on_char ':' ent with
+    | ["d"; p] -> insert_node nd (bytes_of_string "R" :: segs_of_rel (string_of_bytes (bytes_of_hex p))) (NDir [])
+    | ["f"; p; c] -> insert_node nd (bytes_of_string "R" :: segs_of_rel (string_of_bytes (bytes_of_hex p))) (NFile (spec_content c))
+    | _ -> failwith "bad tree entry") base (String.split_on_char ',' tree)
+
+let snapshot_tree (root : node) : string =
+  let out = ref [] in
+  let rec walk prefix nd =
+    match nd with
+    | NFile _ -> ()
+    | NDir es ->
+      let es = List.sort (fun (a, _) (b, _) -> compare (string_of_bytes a) (string_of_bytes b)) es in
+      List.iter (fun (name, x) ->
+        let rel = if prefix = "" then string_of_bytes name else prefix ^ "/" ^ string_of_bytes name in
+        (match x with
+         | NDir _ -> out := (hex_of_bytes (bytes_of_string rel) ^ "/") :: !out; walk rel x
+         | NFile c -> out := (hex_of_bytes (bytes_of_string rel) ^ "=" ^ fp_text c) :: !out)) es in
+  (match root with
+   | NDir es -> (match lookup_entry (bytes_of_string "R") es with Some r -> walk "" r | None -> ())
+   | _ -> ());
+  match List.rev !out with [] -> "-" | l -> String.concat "," l
+
+let has_flag flags c = String.contains flags c
+
+let run_srv toks =
+  match toks with
+  | [_; flags; dup; tree; steps] ->
+    let rootp = bytes_of_string "/R" in
+    let distinct = has_flag flags 'd' in
+    let sdir = rootp @ bytes_of_string (if distinct then "/snd" else "/srv") in
+    let rdir = rootp @ bytes_of_string (if distinct then "/rcv" else "/srv") in
+    let cfg = { v_single = has_flag flags 's'; v_ro = has_flag flags 'r'; v_over = has_flag flags 'o';
+                v_clean = not (has_flag flags 'k'); v_dup = n_of_dec dup; v_sdir = sdir; v_rdir = rdir } in
+    let root = ref (build_tree tree) in
+    let st = ref lstate_init in
+    let mem = n_of_dec "1000000000000" in
+    let out = ref [] in
+    let emit s = out := s :: !out in
+    let reply_text acts =
+      match List.filter_map (function AReply (l, p) -> Some (l, p) | _ -> None) acts with
+      | (l, p) :: _ -> Some (hex_of_bytes (encode p) ^ "@" ^ (if l then "L" else "E"))
+      | [] -> None in
+    List.iter (fun step ->
+      if step = "-" || step.[0] = 'w' then () else begin
+        let kind = step.[0] in
+        let c = Char.code step.[1] - 48 in
+        let fields = String.split_on_char ':' (String.sub step 3 (String.length step - 3)) in
+        let dg = match fields with f :: _ -> if f = "-" then [] else bytes_of_hex f | [] -> [] in
+        let cont = match fields with _ :: x :: _ -> x | _ -> "-" in
+        let src = n_of_int (c + 1) in
+        match listen_step cfg mem !root !st src dg with
+        | Ok (st', acts) ->
+          st := st';
+          let spawn = List.find_opt (function ASpawnSend _ | ASpawnRecv _ -> true | _ -> false) acts in
+          (* what the requester sees first: the listener's / handshake reply, else the first DATA of an option-less read *)
+          let first =
+            match reply_text acts with
+            | Some r -> Some r
+            | None ->
+              (match spawn with
+               | Some (ASpawnSend (path, o, rep, check)) ->
+                 (match stat !root path with
+                  | Some (NFile content) ->
+                    let (datas, _) = run_download o rep check content in
+                    (match datas with
+                     | (nn, p) :: _ -> Some (hex_of_bytes (encode (Data (nn, p))) ^ "@" ^ (if cfg.v_single then "L" else "E"))
+                     | [] -> None)
+                  | _ -> None)
+               | _ -> None) in
+          emit ("reply=" ^ (match first with Some r -> r | None -> "none"));
+          if kind <> 'q' then begin
+            (* a request that arrives as a stray datagram is still served: its worker starts and is abandoned *)
+            (match spawn with
+             | Some (ASpawnRecv (path, _, _, _)) ->
+               (match create_file !root path [] with Some r0 -> root := r0 | None -> st := worker_ended !st src)
+             | _ -> ())
+          end;
+          if kind = 'q' then begin
+            (match spawn with
+             | Some (ASpawnSend (path, o, rep, check)) ->
+               (match stat !root path with
+                | Some (NFile content) ->
+                  if first <> None && cont = "D" then begin
+                    let (datas, ph) = run_download o rep check content in
+                    let got = List.concat (List.filteri (fun i _ -> i mod (int_of_n rep) = 0) (List.map snd datas)) in
+                    let ndata = List.length datas in
+                    let maxpay = List.fold_left (fun m (_, p) -> max m (List.length p)) 0 datas in
+                    let nb = int_of_n (nblocks_of o.wo_blk content) in
+                    (* the client acknowledges a window when the first copy of its last block arrives *)
+                    let fb = (min (int_of_n o.wo_ws) nb - 1) * int_of_n rep + 1 in
+                    emit (Printf.sprintf "dl=%s/%d/%d/%d/%s/%s" (fp_text got) ndata maxpay fb (dec_of_n rep)
+                            (match ph with SDone OutOk -> "done" | _ -> "incomplete"))
+                  end
+                | _ ->
+                  (* a directory: the worker fails on its first read; nothing is ever sent *)
+                  if first <> None && cont = "D" then emit "dl=0:0000000000000000/0/0/0/0/incomplete");
+               st := worker_ended !st src
+             | Some (ASpawnRecv (path, o, rep, clean)) ->
+               let created = create_file !root path [] in
+               (match created with
+                | Some r0 ->
+                  root := r0;
+                  if first <> None && String.length cont > 0 && cont.[0] = 'U' then begin
+                    let content = spec_content (String.sub cont 1 (String.length cont - 1)) in
+                    let ((file, _), ph) = run_upload o rep clean content in
+                    (match file with
+                     | Some f -> (match create_file !root path f with Some r1 -> root := r1 | None -> ())
+                     | None -> root := remove_file !root path);
+                    emit (match ph with RDone OutOk -> "ul=acked" | _ -> "ul=noack:?")
+                  end else if first <> None && cont = "E" then begin
+                    if clean then root := remove_file !root path
+                  end
+                | None ->
+                  if first <> None && String.length cont > 0 && cont.[0] = 'U' then begin
+                    let content = spec_content (String.sub cont 1 (String.length cont - 1)) in
+                    let nb = int_of_n (nblocks_of o.wo_blk content) in
+                    (* the worker ended when it could not create the file: in single-port mode the client's DATA is
+                       routed to nobody and answered by the listener; a closed transfer socket stays silent *)
+                    if cfg.v_single then emit ("ul=error:" ^ hex_of_bytes (encode (Error (EIllegalOperation, msg_invalid_request))))
+                    else emit (Printf.sprintf "ul=noack:%d" (min (int_of_n o.wo_ws) nb))
+                  end);
+               st := worker_ended !st src
+             | _ ->
+               (* refused or dropped: the continuation clients do nothing, but report *)
+               if first <> None then begin
+                 if cont = "D" then emit "dl=-"
+                 else if String.length cont > 0 && cont.[0] = 'U' then emit "ul=-"
+               end)
+          end
+        | Panic -> emit "LISTENER-PANIC"
+        | Abort -> emit "PROCESS-ABORT"
+        | Err _ -> emit "reply=none"
+      end) (String.split_on_char ';' steps);
+    emit ("tree=" ^ snapshot_tree !root);
+    String.concat " " (List.rev !out)
+  | _ -> failwith "bad srv case"
+
 (* ---- CFG ---- *)
 let untok t = if t = "_" then [] else bytes_of_hex t
 let tok b = match b with [] -> "_" | _ -> hex_of_bytes b
@@ -479,6 +640,7 @@ let run_line (line : string) : string =
   | "send" :: _ -> run_send toks
   | "recv" :: _ -> run_recv toks
   | "win" :: _ -> run_win toks
+  | "srv" :: _ -> run_srv toks
   | "cfg" :: _ -> run_cfg toks
   | "cfgperm" :: _ -> run_cfgperm toks
   | "ccfg" :: _ -> run_ccfg toks
